@@ -209,7 +209,10 @@ pub fn run(args: &Args, tier: &str, seed: u64, backend: &str) -> Report {
                 };
                 let srv = Server::start(Some(cfg)).expect("tls server");
                 let resp = response.clone();
-                srv.on("r1", Arc::new(move |_r: &Req| Plan::ok(resp.clone())));
+                // the peer announces `Connection: close` and closes the connection after every answer, so the second send needs a new
+                // connection and with it a new handshake: a client that keeps connections alive across sends would otherwise
+                // legitimately ride the connection it authenticated under the first certificate
+                srv.on("r1", Arc::new(move |_r: &Req| Plan { framing: crate::server::Framing::LengthThenClose, ..Plan::ok(resp.clone()) }));
                 let uri = format!("ipps://localhost:{}/case/r1/ipp/print", srv.port);
                 let ccfg = ClientCfg { ignore_tls: None, ca: root_bytes("pem"), timeout_ms: Some(30_000), ..ClientCfg::default() };
                 let mk = |n: u32| {
@@ -237,7 +240,13 @@ pub fn run(args: &Args, tier: &str, seed: u64, backend: &str) -> Report {
                         (r1, r2, srv.requests_for("r1").len() - before)
                     }
                 };
+                let conns: Vec<u64> = srv.requests_for("r1").iter().map(|r| r.conn).collect();
                 srv.stop();
+                if conns.len() >= 2 && conns[1..].contains(&conns[0]) {
+                    // the second request travelled on the connection authenticated under the first certificate: nothing to judge
+                    rep.count("client_reuse_sequences_on_one_connection_unjudged", 1);
+                    continue;
+                }
                 if !r1.is_ok() {
                     rep.violation(format!("C12:rejected-trusted-server:{kind:?}:{backend}:reuse-first-send"), format!("cell {cell}: the first send to the valid server failed: {}", r1.short()), replay.clone());
                     continue;
@@ -259,7 +268,7 @@ pub fn run(args: &Args, tier: &str, seed: u64, backend: &str) -> Report {
         }
     }
     rep.extra.insert("tls_backend_of_this_build".into(), J::Str(backend.to_string()));
-    rep.rule = format!("Complete matrix for the {backend} build: {{blocking, async}} x ignore_tls_errors {{unset, false, true}} x extra root {{none, correct CA as PEM, as DER, unrelated CA, second (tiny Ed25519, DER < 256 bytes and ending in a 0x0a octet) CA as PEM, as DER, correct CA as PEM with CRLF line endings and a leading comment line, correct CA as PEM behind its `openssl x509 -text` dump}} x server certificate {{valid for localhost, wrong host name, expired, self-signed, signed by an unknown CA, valid under the second CA, expired less than a minute before the run}} = 336 cells per TLS backend build, the target written ipps:// or https:// (quick: one spelling per cell chosen by cell hash and seed; thorough: both, x {{1.2+1.3, 1.2-only, 1.3-only}} peers), against a loopback rustls peer with freshly generated CAs. Oracle: accept <=> ignore == true or the supplied root (PEM or DER) is the one the valid leaf chains to; in every rejected cell the peer application must have received zero decrypted bytes. Plus client-reuse sequences: one client object sends to a valid server, the server's certificate is then exchanged (same port, session cache kept) for an expired / wrong-host / valid one, and the same client sends again - refused, refused, accepted. Four builds are run and merged by the driver: both clients on native-tls, both on rustls (full matrix each), and the two mixed builds - blocking native-tls + async rustls, blocking rustls + async native-tls - with the full matrix in thorough and a 36-cell sub-matrix ({{valid, wrong host, expired}} x {{no root, PEM, DER}} x {{unset, true}} x 2 clients) in quick.");
+    rep.rule = format!("Complete matrix for the {backend} build: {{blocking, async}} x ignore_tls_errors {{unset, false, true}} x extra root {{none, correct CA as PEM, as DER, unrelated CA, second (tiny Ed25519, DER < 256 bytes and ending in a 0x0a octet) CA as PEM, as DER, correct CA as PEM with CRLF line endings and a leading comment line, correct CA as PEM behind its `openssl x509 -text` dump}} x server certificate {{valid for localhost, wrong host name, expired, self-signed, signed by an unknown CA, valid under the second CA, expired less than a minute before the run}} = 336 cells per TLS backend build, the target written ipps:// or https:// (quick: one spelling per cell chosen by cell hash and seed; thorough: both, x {{1.2+1.3, 1.2-only, 1.3-only}} peers), against a loopback rustls peer with freshly generated CAs. Oracle: accept <=> ignore == true or the supplied root (PEM or DER) is the one the valid leaf chains to; in every rejected cell the peer application must have received zero decrypted bytes. Plus client-reuse sequences: one client object sends to a valid server, the peer closes the connection after its answer, the server's certificate is then exchanged (same port, session cache kept) for an expired / wrong-host / valid one, and the same client sends again - refused, refused, accepted. Four builds are run and merged by the driver: both clients on native-tls, both on rustls (full matrix each), and the two mixed builds - blocking native-tls + async rustls, blocking rustls + async native-tls - with the full matrix in thorough and a 36-cell sub-matrix ({{valid, wrong host, expired}} x {{no root, PEM, DER}} x {{unset, true}} x 2 clients) in quick.");
     if only.is_none() {
         let want = if reduced { 36 } else { 336 * version_sets.len() * if tier == "thorough" { 2 } else { 1 } };
         rep.require(rep.evaluations as usize >= want, "all cells of the matrix executed");
